@@ -286,12 +286,14 @@ def flatten(F, inline_ids):
         if b.crate in CRATES and not b.is_test_code() and b.kind in ('Fn', 'AssocFn'):
             try:
                 nd, des = desugar_dict(F, nd)
+                nd, des2 = desugar_combinators_dict(F, nd)
+                des = des or des2
             except Exception as e:  # leave the body as it is
                 report.setdefault('desugar-errors', []).append('%s: %r' % (b.path, e))
                 des = False
         if inl or des:
             nd, _ = thread_dict(nd)
-            inl = inl or ['<iterator consumers as loops>']
+            inl = inl or ['<closure-taking consumers / combinators made explicit>']
             nb = Body(G, b.crate, nd)
             nb.unit, nb.unit_is_test = b.unit, b.unit_is_test
             nb.inlined = inl
@@ -873,4 +875,124 @@ def desugar_dict(F, d, flat_cache=None):
             if not (by_ref and pred is None):
                 B[H]['stmts'] = [assign(r_local, {'k': 'ref', 'mut': True, 'pl': {'l': sp['l'], 'p': sp['p']}})]
             B[bb] = dict(B[bb], term={'k': 'goto', 't': H})
+    return (nd if nd is not None else d), nd is not None
+
+
+# ------------------------------------------------------------------------------------------------------------
+# Option / Result combinators that take a closure and *choose* between the payload and the closure's answer are written as
+# the `match` they stand for (the closure body spliced into its arm): `r.unwrap_or_else(|e| { record(e); false })` is
+# `match r { Ok(v) => v, Err(e) => { record(e); false } }`. Covered: unwrap_or_else, or_else, and_then, map_or, map_or_else
+# (on Option and Result). `map`, `map_err`, `then` stay calls: the rules know them as value-preserving adaptors.
+# ------------------------------------------------------------------------------------------------------------
+
+COMBINATORS = ('unwrap_or_else', 'or_else', 'and_then', 'map_or', 'map_or_else')
+
+
+def desugar_combinators_dict(F, d):
+    nd = None
+    for bb in range(len(d['blocks'])):
+        blk = (nd or d)['blocks'][bb]
+        t = blk['term']
+        if blk['cleanup'] or t['k'] != 'call' or 'fn' not in t['f'] or not isinstance(t.get('t'), int) or t['t'] < 0:
+            continue
+        fn = t['f']['fn']
+        name = fn.get('name')
+        head = (fn.get('impl_self') or '').split('<')[0]
+        if name not in COMBINATORS or head not in ('std::option::Option', 'std::result::Result') or t['dest']['p']:
+            continue
+        cur = nd or d
+        is_res = head.endswith('Result')
+        args = t['args']
+        sp = args[0].get('m') or args[0].get('c')
+        if sp is None or sp['p']:
+            continue
+        # closures involved
+        if name == 'map_or':
+            if len(args) != 3:
+                continue
+            default_op, fop, dop = args[1], args[2], None
+        elif name == 'map_or_else':
+            if len(args) != 3:
+                continue
+            default_op, fop, dop = None, args[2], args[1]
+        else:
+            if len(args) != 2:
+                continue
+            default_op, fop, dop = None, args[1], None
+        fcb, fkind = _callable_of(F, cur, fop)
+        if fcb is None:
+            continue
+        dcb, dkind = (None, None)
+        if dop is not None:
+            dcb, dkind = _callable_of(F, cur, dop)
+            if dcb is None:
+                continue
+        if nd is None:
+            nd = dict(d)
+            nd['locals'] = list(d['locals'])
+            nd['blocks'] = [dict(b_, stmts=list(b_['stmts'])) for b_ in d['blocks']]
+        B, L = nd['blocks'], nd['locals']
+        ln = t.get('fl', blk.get('tln', 0))
+        T, dl = t['t'], t['dest']['l']
+        adt = 'std::result::Result' if is_res else 'std::option::Option'
+        pos_name, pos_vi = ('Ok', 0) if is_res else ('Some', 1)
+        neg_name, neg_vi = ('Err', 1) if is_res else ('None', 0)
+
+        def new_local(ty):
+            L.append({'ty': ty})
+            return len(L) - 1
+
+        def new_block(stmts, term):
+            B.append({'cleanup': False, 'stmts': stmts, 'term': term, 'tln': ln, 'synth': True})
+            return len(B) - 1
+
+        def assign(l, rv):
+            return {'k': 'a', 'p': {'l': l, 'p': []}, 'rv': rv, 'ln': ln, 'synth': True}
+
+        def payload(vname, vi):
+            return {'m': {'l': sp['l'], 'p': [{'d': vname, 'i': vi}, {'f': 0, 'n': '0', 'a': adt}]}}
+
+        def call_into(cbody, ckind, cop, arg_ops, dest_local, target):
+            cd = cbody.d
+            stmts, assigns = [], []
+            if ckind == 'closure':
+                envty = cd['locals'][1]['ty'] if len(cd['locals']) > 1 else ''
+                cpl = cop.get('m') or cop.get('c')
+                if envty.startswith('&'):
+                    r = new_local(envty)
+                    stmts.append(assign(r, {'k': 'ref', 'mut': envty.startswith('&mut'), 'pl': {'l': cpl['l'], 'p': cpl['p']}}))
+                    assigns.append((1, {'m': {'l': r, 'p': []}}))
+                else:
+                    assigns.append((1, cop))
+                for i, a in enumerate(arg_ops):
+                    assigns.append((2 + i, a))
+            else:
+                for i, a in enumerate(arg_ops):
+                    assigns.append((1 + i, a))
+            idx = new_block(stmts, {'k': 'call', 'f': {'fn': {'path': cbody.d.get('path', ''), 'id': cbody.id, 'krate': cbody.crate, 'local': True, 'name': cbody.name, 'gargs': []}},
+                                    'args': [], 'dest': {'l': dest_local, 'p': []}, 'dest_ty': cd['locals'][0]['ty'], 't': target, 'uw': -2, 'fl': ln, 'fx': False})
+            _splice(nd, idx, cd, cbody.id, assigns, {})
+            return idx
+        goto_T = {'k': 'goto', 't': T}
+        if name == 'unwrap_or_else':
+            pos = new_block([assign(dl, {'k': 'use', 'op': payload(pos_name, pos_vi)})], goto_T)
+            neg = call_into(fcb, fkind, fop, [payload('Err', 1)] if is_res else [], dl, T)
+        elif name == 'or_else':
+            pos = new_block([assign(dl, {'k': 'use', 'op': {'m': {'l': sp['l'], 'p': []}}})], goto_T)
+            neg = call_into(fcb, fkind, fop, [payload('Err', 1)] if is_res else [], dl, T)
+        elif name == 'and_then':
+            pos = call_into(fcb, fkind, fop, [payload(pos_name, pos_vi)], dl, T)
+            if is_res:
+                neg = new_block([assign(dl, {'k': 'aggr', 'ak': {'adt': adt, 'variant': 'Err', 'vi': 1}, 'ops': [payload('Err', 1)]})], goto_T)
+            else:
+                neg = new_block([assign(dl, {'k': 'aggr', 'ak': {'adt': adt, 'variant': 'None', 'vi': 0}, 'ops': []})], goto_T)
+        elif name == 'map_or':
+            pos = call_into(fcb, fkind, fop, [payload(pos_name, pos_vi)], dl, T)
+            neg = new_block([assign(dl, {'k': 'use', 'op': default_op})], goto_T)
+        else:  # map_or_else
+            pos = call_into(fcb, fkind, fop, [payload(pos_name, pos_vi)], dl, T)
+            neg = call_into(dcb, dkind, dop, [payload('Err', 1)] if is_res else [], dl, T)
+        dsc = new_local('isize')
+        B[bb] = dict(B[bb], stmts=B[bb]['stmts'] + [assign(dsc, {'k': 'discr', 'pl': {'l': sp['l'], 'p': []}, 'ty': adt + '<_>'})],
+                     term={'k': 'switch', 'op': {'m': {'l': dsc, 'p': []}}, 'arms': [[str(pos_vi), pos]], 'otherwise': neg})
     return (nd if nd is not None else d), nd is not None
